@@ -519,10 +519,10 @@ Warning: rounding to n-th business day not supported for input value");
 				;
 			} else if (forw) {
 				/* years don't wrap around */
-				d.ywd.y++;
+				d = dt_dadd(d, dt_make_ddur(DT_DURYR, 1));
 			} else {
 				/* years don't wrap around */
-				d.ywd.y--;
+				d = dt_dadd(d, dt_make_ddur(DT_DURYR, -1));
 			}
 			/* final assignment */
 			d.ywd.c = tgt;
